@@ -451,6 +451,13 @@ impl Exec4 {
         self.cas_watch.store(false, std::sync::atomic::Ordering::SeqCst);
         let fails: Vec<String> = std::mem::take(&mut *self.cas_failures.lock().unwrap());
         if let Some(h) = fails.first() {
+            if self.kill_check {
+                // C04: a process kill at that instant leaves a visible frame without its content
+                return violation(
+                    "crash/visible-without-content",
+                    format!("a frame with hash {} was committed (append reached its broadcast) while that content was not yet in the CAS: a process kill at that instant leaves a visible frame whose content is missing", h),
+                );
+            }
             return violation(
                 "cas/missing-when-visible",
                 format!("a frame with hash {} became observable (append reached its broadcast) while that content was not yet retrievable from the CAS", h),
